@@ -6,27 +6,50 @@ import runner
 from props.parts import _tracksv1_gen as G
 
 NS = "EngineModel.Properties.C01V1."
-LEAN_MODULES = ["Properties.C01V1"]
+LEAN_MODULES = ["Properties.C01V1", "Properties.C01V1Db"]
 THEOREMS = [NS + t for t in [
     "v1_C01_roundtrip", "v1_C01_reject", "v1_C01_never_ub", "v1_C01_accepts", "v1_C01_fixed_point",
-    "v1_C01_fixed_point_rows", "v1_C01_representable", "v1_C01_prior_irrelevant", "v1_C01_db_roundtrip"]]
+    "v1_C01_fixed_point_rows", "v1_C01_representable", "v1_C01_representable_all", "v1_C01_prior_irrelevant",
+    "v1_C01_db_roundtrip",
+    # database level, statements, bytes, NaN (Properties/C01V1Db.lean)
+    "v1_C01_db_create_roundtrip", "v1_C01_db_create_accepts", "v1_C01_db_update_accepts", "v1_C01_db_reject",
+    "v1_C01_db_unique_path", "v1_C01_db_frame", "v1_C01_txn_create", "v1_C01_txn_update", "v1_C01_txn_prepare",
+    "v1_C01_db_reject_unchanged", "v1_C01_codec_bridge", "v1_C01_codec_bridge_slots",
+    "v1_C01_roundtrip_through_bytes", "v1_C01_nan_total", "v1_C01_nan_agrees", "v1_C01_nan_fields",
+    "v1_C01_nan_grid_counterexample"]]
 ASSUMPTIONS = [
-    "1.x: a PerformanceData blob column is modelled by the codec's value-level effect decode(encode v) (normTrack/"
-    "normBeat/normCues/normLoops/normHires/normOvw); the driver re-checks it on every stored row against the byte-level "
-    "codec model Impl/V1.lean, whose agreement with the C++ bytes is C02-C05's tie",
+    "1.x: a PerformanceData blob column is modelled by the codec's value-level effect (normTrack/normBeat/normCues/"
+    "normLoops/normHires/normOvw); v1_C01_codec_bridge / _slots prove this IS decode(encode v) of the byte-level codec "
+    "model Impl/V1.lean (on top of the locked C03 read-back theorems; exception classes of the cue / loop encoders by the "
+    "tie only), the driver re-checks it on every stored row, and Impl/V1.lean's agreement with the C++ bytes is C02-C05's tie",
+    "1.x: `a failed call changes nothing` is proved on the statement sequence BEGIN; Track; MetaData; MetaDataInteger; "
+    "PerformanceData; COMMIT over the connection model of Spec/Txn.lean (SQLite statement atomicity and rollback are the "
+    "trusted SqliteSemantics) for a failure at any position (v1_C01_txn_create / _update / v1_C01_db_reject_unchanged); tied by "
+    "fault injection at every statement of create_track / update on the real library",
     "1.x: SQLite keeps INTEGER / TEXT / BLOB cells as bound; a double bound to the REAL column bpmAnalyzed reads back "
     "bit-identical except -0.0 -> +0.0 and NaN -> NULL (Fl.realCell); UNIQUE(path) from 1.11.1 on; validated by the raw "
     "row comparison on every case",
-    "1.x: NaN is outside the quantifier (hypothesis NoNaN of the round-trip theorems); infinities are inside",
+    "1.x: NaN is outside the property's quantifier (hypothesis NoNaN of the round-trip theorems); infinities are inside. "
+    "What the library does with NaN is nevertheless stated (v1_C01_nan_total: accepted iff Spec.libAccepted, every NaN "
+    "survives bit for bit except a NaN BPM, which reads back absent) and tied by a NaN stream; a mismatch there is a "
+    "model/implementation divergence, never a property violation",
     "1.x: double arithmetic whose result only reaches raw columns (samples-per-entry, beat data's double sample count, "
     "ceil in set_bpm) is an opaque parameter of the Model (hardware doubles in the driver); no theorem depends on it",
 ]
 MANIFEST_TEXT = (
-    "1.x: theorems v1_C01_roundtrip / v1_C01_reject / v1_C01_never_ub / v1_C01_fixed_point / v1_C01_representable for all "
-    "eleven legacy versions, all snapshots without NaN and all prior rows, about a statement-level Lean model of "
-    "create_track / update / snapshot() over the four legacy tables; tied on every run by differential replay of "
-    "generated snapshots (create and update-over-prior) with snapshot(), raw rows with decoded blobs and a second "
-    "write of the read-back, plus the Spec `normalize` evaluated on the real library's own answers.")
+    "1.x: theorems v1_C01_roundtrip / v1_C01_reject / v1_C01_never_ub / v1_C01_fixed_point(_rows) / v1_C01_representable "
+    "(14 fields verbatim + 11 under explicit arithmetic Repr... predicates, field by field) for all eleven legacy versions, "
+    "all snapshots without NaN and all prior rows, about a statement-level Lean model of create_track / update / snapshot() "
+    "over the four legacy tables; on the database of several tracks: round trip through both calls, acceptance converse "
+    "(v1_C01_db_create_accepts / _update_accepts: Spec accepts and path free => written), reject, UNIQUE(path), frame; a "
+    "failed call changes nothing on the statement sequence BEGIN; Track; MetaData; MetaDataInteger; PerformanceData; COMMIT "
+    "with a failure at any position (v1_C01_txn_create / _update / v1_C01_db_reject_unchanged, via the transaction theory "
+    "of C14); the blob columns are decode(encode v) of the byte-level codec model (v1_C01_codec_bridge(_slots), "
+    "v1_C01_roundtrip_through_bytes, on the locked C03 theorems); NaN stated (v1_C01_nan_total / _fields).  Tied on every "
+    "run by differential replay of generated snapshots (create and update-over-prior) with snapshot(), raw rows with "
+    "decoded blobs and a second write of the read-back, plus Spec `normalize` on the real library's own answers; a "
+    "fault-injection stream (failure at statement 0..7 of both calls: thrown => every observation of every track "
+    "unchanged, other track never changed, UNIQUE(path) refusal) and a NaN stream.")
 TRUSTED_EXTRA = ["tools/props/parts/_tracksv1_gen.py (generators), harness/djv_tracksv1.cpp (raw row dump with the "
                  "library's own blob decoders)"]
 
@@ -76,11 +99,225 @@ def canon(l):
     return G.canon_ub(l)
 
 
+def canon_fault(l):
+    """`fault.status` prints how many statements were seen: never compared (statement counts are not behaviour)."""
+    if l.startswith("ok fired="):
+        return l.split(" seen=")[0]
+    return canon(l)
+
+
+def fault_stream(ctx, rng, schemas):
+    """create_track / update under a fault injected at the k-th non-read-only statement of the call, k = 0..7, on the real
+    library and on the statement-level model (Txn.lean).  Oracle on the implementation's own answers: when the fault
+    fired the call must throw and every observation of every track — the target included — must be what it was; when it
+    did not fire the call behaves as without `fault`.  The model runs second: it is told `fault (k mod 6)` where the
+    implementation reported `fired=1` and `fault 99` where it did not, so that the comparison does not depend on how many
+    statements the implementation happens to use."""
+    n_cases = 4 if ctx.tier == "quick" else 10
+    scripts = []
+    for sch in schemas:
+        for c in range(n_cases):
+            lines, meta = ["#mode tracksv1", "create %s %s" % (sch, "disk" if rng.random() < 0.2 else "mem")], [None, None]
+            other = G.g_snapshot(rng, 500 + c, "quick", valid=True)
+            other["relative_path"] = b"other/o%d.mp3" % c
+            lines.append("mktrack o %s" % G.snap_txt(other)); meta.append(("mk",))
+            upd = rng.random() < 0.5
+            if upd:
+                lines.append("mktrack t %s" % G.snap_txt(G.g_snapshot(rng, 600 + c, "quick", valid=True))); meta.append(("mk",))
+            for k in range(8):
+                x = G.g_snapshot(rng, 700 + 10 * c + k, "quick", valid=rng.random() < 0.85)
+                if k == 7 and x["relative_path"] is not None:
+                    x["relative_path"] = other["relative_path"]     # UNIQUE(path) from 1.11.1: refused, `o` untouched
+                t = "t" if upd else "n%d" % k
+                watch = ["o"] + (["t"] if upd else [])
+                for w in watch:
+                    lines.append("snap %s" % w); meta.append(("before", k, w, "snap"))
+                    lines.append("v1.rows %s" % w); meta.append(("before", k, w, "rows"))
+                lines.append("fault %d" % k); meta.append(("fault", k))
+                lines.append("%s %s %s" % ("update" if upd else "mktrack", t, G.snap_txt(x)))
+                meta.append(("call", k, "update" if upd else "create", t))
+                lines.append("fault.status"); meta.append(("status", k))
+                for w in watch:
+                    lines.append("snap %s" % w); meta.append(("after", k, w, "snap"))
+                    lines.append("v1.rows %s" % w); meta.append(("after", k, w, "rows"))
+                if not upd:
+                    lines.append("get %s valid" % t); meta.append(("newvalid", k))
+            scripts.append((sch, lines, meta))
+    hres, retried = G.run_harness_robust(runner, [s[1] for s in scripts], watchdog=30)
+    mscripts = []
+    for (sch, lines, meta), (hout, _) in zip(scripts, hres):
+        ml = list(lines)
+        for i, m in enumerate(meta):
+            if m and m[0] == "fault":
+                fired = hout[i + 2].startswith("ok fired=1")
+                ml[i] = "fault %d" % ((m[1] % 6) if fired else 99)
+        mscripts.append(ml)
+    mres = runner.run_model(mscripts)
+    div, viol = [], []
+    hist = {"calls": 0, "fired": 0, "fired_at": {}, "threw_unchanged": 0, "not_fired_ok": 0, "not_fired_throw": 0}
+    evals = 0
+    for (sch, lines, meta), (hout, _), mout in zip(scripts, hres, mres):
+        for i, l in enumerate(lines):
+            evals += 1
+            if meta[i] and meta[i][0] == "fault":
+                continue
+            if canon_fault(hout[i]) != canon_fault(mout[i]) and not hout[i].startswith("skipped-after-crash"):
+                div.append({"input": "%s | fault stream | %s" % (sch, l[:300]), "impl": hout[i][:300], "model": mout[i][:300]})
+        obs = {}
+        for i, m in enumerate(meta):
+            if m and m[0] in ("before", "after"):
+                obs[(m[0], m[1], m[2], m[3])] = hout[i]
+        for i, m in enumerate(meta):
+            if not m or m[0] != "call":
+                continue
+            k, kind = m[1], m[2]
+            res, status = hout[i], hout[i + 1]
+            if res.startswith("skipped") or res.startswith("missing"):
+                continue
+            hist["calls"] += 1
+            fired = status.startswith("ok fired=1")
+            body = [l for l, mm in zip(lines[:i + 2], meta[:i + 2]) if not (mm and mm[0] in ("before", "after", "newvalid"))]
+            if res.startswith("ub"):
+                viol.append({"tag": "oracle", "signature": None,
+                             "header": {"kind": "history", "part": "C01_v1",
+                                        "what": "%s under an injected statement failure is undefined behaviour (%s) on %s" % (kind, res, sch)},
+                             "body": body})
+                continue
+            if fired:
+                hist["fired"] += 1
+                hist["fired_at"][str(k)] = hist["fired_at"].get(str(k), 0) + 1
+            # frame: whatever the outcome, the other track is observed exactly as before
+            hist["frame_checks"] = hist.get("frame_checks", 0) + 1
+            oth = [what for (ph, kk, w, what), val in obs.items()
+                   if ph == "before" and kk == k and w == "o" and obs.get(("after", k, "o", what)) != val]
+            if oth:
+                viol.append({"tag": "oracle", "signature": None,
+                             "header": {"kind": "history", "part": "C01_v1",
+                                        "what": "%s (%s) changed another track (%s of it) on %s"
+                                                % (kind, res.split()[0], oth[0], sch)},
+                             "body": body + ["note: snap o", "note: v1.rows o"]})
+                continue
+            if k == 7 and not fired and G.SCHEMAS.index(sch) >= G.UNIQUE_PATH_FROM and res.startswith("throw sqlite_error"):
+                hist["unique_path_refused"] = hist.get("unique_path_refused", 0) + 1
+            if res.startswith("throw"):
+                changed = [(w, what) for (ph, kk, w, what), val in obs.items()
+                           if ph == "before" and kk == k and obs.get(("after", k, w, what)) != val]
+                if changed:
+                    viol.append({"tag": "oracle", "signature": None,
+                                 "header": {"kind": "history", "part": "C01_v1",
+                                            "what": "%s threw (%s, fault at statement %d %s) but the stored data changed: %s of track %s on %s"
+                                                    % (kind, res.split()[1] if len(res.split()) > 1 else "?", k,
+                                                       "fired" if fired else "not fired", changed[0][1], changed[0][0], sch)},
+                                 "body": body + ["note: %s %s" % (("snap" if changed[0][1] == "snap" else "v1.rows"), changed[0][0])]})
+                    continue
+                if kind == "create" and hout[i + 2 + 2 * 1].startswith("ok 1"):
+                    pass
+                hist["threw_unchanged"] += 1
+                if not fired:
+                    hist["not_fired_throw"] += 1
+            elif fired:
+                viol.append({"tag": "oracle", "signature": None,
+                             "header": {"kind": "history", "part": "C01_v1",
+                                        "what": "%s returned normally although one of its statements failed (fault at statement %d) on %s"
+                                                % (kind, k, sch)},
+                             "body": body})
+            else:
+                hist["not_fired_ok"] += 1
+    return div, viol, hist, evals, retried
+
+
+def nan_stream(ctx, rng, schemas):
+    """Snapshots with NaN in every place a double can stand.  Outside the property's quantifier: model vs implementation,
+    and the executable statement of what the library does (Spec.normalizeNaN, theorem v1_C01_nan_total) on the
+    implementation's own answers — any mismatch is a divergence, not a violation; undefined behaviour is a violation."""
+    n = 30 if ctx.tier == "quick" else 150
+    NaNs = [G.NAN, "fff8000000000000", "7ff0000000000001", "7fffffffffffffff"]
+    scripts = []
+    for sch in schemas:
+        lines, meta = ["#mode tracksv1", "create %s mem" % sch], [None, None]
+        for j in range(n):
+            x = G.g_snapshot(rng, 900 + j, "quick", valid=rng.random() < 0.8)
+            nan = rng.choice(NaNs)
+            where = rng.choice(["average_loudness", "bpm", "main_cue", "sample_rate", "cue", "loop_start", "loop_end",
+                                "grid", "bpm", "grid"])
+            if where in ("average_loudness", "bpm", "main_cue", "sample_rate"):
+                x[where] = nan
+            elif where == "cue":
+                x["hot_cues"] = [{"label": b"n", "off": nan, "color": "1 2 3 4"}] + x["hot_cues"][:7]
+            elif where == "loop_start":
+                x["loops"] = [{"label": b"n", "start": nan, "end": G.dbits(5.0), "color": "1 2 3 4"}] + x["loops"][:7]
+            elif where == "loop_end":
+                x["loops"] = [{"label": b"n", "start": G.dbits(5.0), "end": nan, "color": "1 2 3 4"}] + x["loops"][:7]
+            else:
+                g = [(0, G.dbits(0.0)), (4, G.dbits(1000.0)), (8, G.dbits(2000.0)), (12, G.dbits(3000.0))]
+                g[rng.randrange(4)] = (g[0][0] + 4 * rng.randrange(4), nan)
+                g = [(4 * i, o) for i, (_, o) in enumerate(g)]
+                x["beatgrid"] = g
+            v = "t%d" % j
+            if rng.random() < 0.5:
+                lines.append("mktrack %s %s" % (v, G.snap_txt(x))); meta.append(("write", sch, x, where))
+            else:
+                lines.append("mktrack %s %s" % (v, G.snap_txt(G.minimal(b"nan/p%d.mp3" % j)))); meta.append(("prior",))
+                lines.append("update %s %s" % (v, G.snap_txt(x))); meta.append(("write", sch, x, where))
+            lines.append("snap %s" % v); meta.append(("snap",))
+            lines.append("v1.rows %s" % v); meta.append(("rows",))
+        scripts.append((sch, lines, meta))
+    hres, retried = G.run_harness_robust(runner, [s[1] for s in scripts], watchdog=30)
+    mres = runner.run_model([s[1] for s in scripts])
+    spec_lines = []
+    for (sch, lines, meta) in scripts:
+        for l, m in zip(lines, meta):
+            if m and m[0] == "write":
+                spec_lines.append("v1spec.normalizenan %s %s" % (sch, l.split(" ", 2)[2]))
+    sout = [o for outs in runner.run_model(runner.shard(spec_lines, NCPU)) for o in outs]
+    sp = iter(sout)
+    div, viol = [], []
+    hist = {"writes": 0, "by_place": {}, "accepted": 0, "rejected": 0, "bpm_read_back_absent": 0}
+    evals = 0
+    for (sch, lines, meta), (hout, _), mout in zip(scripts, hres, mres):
+        for i, l in enumerate(lines):
+            evals += 1
+            if canon(hout[i]) != canon(mout[i]) and not hout[i].startswith("skipped-after-crash"):
+                div.append({"input": "%s | NaN stream | %s" % (sch, l[:300]), "impl": hout[i][:300], "model": mout[i][:300]})
+        for i, m in enumerate(meta):
+            if not m or m[0] != "write":
+                continue
+            spec = next(sp)
+            res = hout[i]
+            hist["writes"] += 1
+            hist["by_place"][m[3]] = hist["by_place"].get(m[3], 0) + 1
+            if res.startswith("ub"):
+                viol.append({"tag": "oracle", "signature": None,
+                             "header": {"kind": "input", "what": "writing a snapshot with NaN is undefined behaviour (%s) on %s" % (res, sch)},
+                             "body": ["#mode tracksv1", lines[1], lines[i]]})
+                continue
+            if res.startswith("skipped") or res.startswith("missing") or res.startswith("bad-op"):
+                continue
+            if spec == "ok reject":
+                hist["rejected"] += 1
+                if not res.startswith("throw"):
+                    div.append({"input": "%s | NaN stream | %s" % (sch, lines[i][:300]), "impl": res[:100],
+                                "model": "Spec.normalizeNaN: the library rejects this snapshot"})
+            elif res.startswith("throw"):
+                c = res.split()[1] if len(res.split()) > 1 else "?"
+                if not (c == "sqlite_error"):
+                    div.append({"input": "%s | NaN stream | %s" % (sch, lines[i][:300]), "impl": res[:100],
+                                "model": "Spec.normalizeNaN: the library accepts this snapshot"})
+            else:
+                hist["accepted"] += 1
+                if hout[i + 1] != spec:
+                    div.append({"input": "%s | NaN stream | %s" % (sch, lines[i][:300]), "impl": hout[i + 1][:300],
+                                "model": "Spec.normalizeNaN: " + spec[:300]})
+                elif m[3] == "bpm":
+                    hist["bpm_read_back_absent"] += 1
+    return div, viol, hist, evals, retried
+
+
 def tie(ctx):
     rng = random.Random(ctx.seed * 7919 + 101)
     schemas = G.QUICK_SCHEMAS if ctx.tier == "quick" else G.SCHEMAS
     scripts = build_cases(rng, ctx.tier, schemas)
-    hres = runner.run_harness([s[1] for s in scripts], watchdog=30)
+    hres, retried = G.run_harness_robust(runner, [s[1] for s in scripts], watchdog=30)
     mres = runner.run_model([s[1] for s in scripts])
     # Spec on every written snapshot (stateless driver commands)
     spec_lines = []
@@ -95,7 +332,8 @@ def tie(ctx):
 
     divergences, violations = [], []
     hist = {"writes": 0, "create": 0, "update": 0, "accepted": 0, "rejected_by_spec": 0, "threw": {}, "ub": 0,
-            "nan_inputs": 0, "dup_path_conflicts": 0, "schemas": {}, "fixed_point_checked": 0, "rows_compared": 0}
+            "nan_inputs": 0, "dup_path_conflicts": 0, "schemas": {}, "fixed_point_checked": 0, "rows_compared": 0,
+            "watchdog_retries": retried}
     distinct = set()
     evals = 0
     for (sch, lines, meta), (hout, hrep), mout in zip(scripts, hres, mres):
@@ -111,13 +349,28 @@ def tie(ctx):
             if not m or m[0] not in ("write", "prior"):
                 continue
             spec, nonan = next(sp), next(sp)
-            if m[0] == "prior":
-                continue
             x, kind = m[2], m[3]
+            res = hout[i]
+            if m[0] == "prior":
+                # the snapshot an update case starts from is one every version must accept: judge it too
+                # (accepted, read back as normalised), so that a failure is reported where it happens
+                hist["priors"] = hist.get("priors", 0) + 1
+                if res.startswith("ok") and spec.startswith("ok ") and spec != "ok reject":
+                    if hout[i + 1] != spec:
+                        violations.append({"tag": "oracle", "signature": None,
+                                           "header": {"kind": "input", "what": "read-back differs from the normalised "
+                                                      "snapshot after create on %s" % sch},
+                                           "body": ["#mode tracksv1", lines[1], lines[i], lines[i + 1],
+                                                    "want: " + spec[:600], "got:  " + hout[i + 1][:600]]})
+                elif res.startswith("throw") or res.startswith("ub"):
+                    violations.append({"tag": "oracle", "signature": None,
+                                       "header": {"kind": "input", "what": "a snapshot the library must accept was "
+                                                  "rejected (%s) by create on %s" % (res, sch)},
+                                       "body": ["#mode tracksv1", lines[1], lines[i], "impl: " + res[:300]]})
+                continue
             hist["writes"] += 1
             hist[kind] += 1
-            res = hout[i]
-            if res.startswith("skipped") or res.startswith("missing"):
+            if res.startswith("skipped") or res.startswith("missing") or res.startswith("bad-op"):
                 continue
             def viol(what, extra=()):
                 body = ["#mode tracksv1", lines[1]]
@@ -166,6 +419,14 @@ def tie(ctx):
                 continue
             distinct.add(want)
     crashes = [r for (_, reps) in hres for r in reps]
+    fd, fv, fh, fe, fr = fault_stream(ctx, random.Random(ctx.seed * 104729 + 7), schemas)
+    nd, nv, nh, ne, nr = nan_stream(ctx, random.Random(ctx.seed * 15485863 + 11), schemas)
+    divergences += fd + nd
+    violations += fv + nv
+    evals += fe + ne
+    hist["fault_stream"] = fh
+    hist["nan_stream"] = nh
+    hist["watchdog_retries"] += fr + nr
     return {
         "ok": not divergences and not violations,
         "evaluations": evals,
@@ -176,7 +437,10 @@ def tie(ctx):
                 "0/1/1023/1024/1025/5000 entries, sample rate absent/0/(0,1)/209/210/>=2^63) x {create, update over a "
                 "prior snapshot} x versions; per case: write, snap, raw rows with decoded blobs, second write of the "
                 "read-back, raw rows; model vs implementation line by line, and Spec.normalize on the implementation's "
-                "answers; non-trivial = distinct normalised snapshots accepted and read back",
+                "answers; non-trivial = distinct normalised snapshots accepted and read back.  Fault stream: create_track / "
+                "update with a failure injected at statement k = 0..7 (real library and statement-level model), thrown => "
+                "every observation of every track unchanged.  NaN stream: NaN in every double position, model vs "
+                "implementation vs Spec.normalizeNaN",
         "samples": [scripts[0][1][2][:300], scripts[-1][1][-5][:300]],
         "histograms": hist,
         "divergences": divergences[:20],
